@@ -200,61 +200,15 @@ def _utc_forced(ctx):
 
 # ---------------------------------------------------------------------------
 def tzid_forward_names(ctx):
-    """(names for which from_ical passes params['TZID'] to the decoder,
-    whether the FREEBUSY branch does, FuncInfo)."""
+    """(names for which from_ical passes the TZID parameter to the decoder,
+    whether FREEBUSY is among them, FuncInfo) - decided by exploring the
+    parse loop itself (sa.parseloop.tzid_probe), not from its shape."""
+    from .. import parseloop
     m = ctx.model
-    fi = m.cls("cal.Component").methods.get("from_ical")
-    consts = {}
-    for n in ast.walk(fi.node):
-        if isinstance(n, ast.Assign) and isinstance(n.targets[0], ast.Name) \
-                and isinstance(n.value, ast.Tuple):
-            try:
-                consts[n.targets[0].id] = m.const(n.value, fi.module)
-            except AnalysisError:
-                pass
-    # the branch that passes params['TZID'] as second argument
-    names = None
-    for n in ast.walk(fi.node):
-        if isinstance(n, ast.If) and isinstance(n.test, ast.BoolOp):
-            for v in n.test.values:
-                if isinstance(v, ast.Compare) and isinstance(v.ops[0], ast.In) \
-                        and isinstance(v.comparators[0], ast.Name) \
-                        and v.comparators[0].id in consts:
-                    passes = any(isinstance(c, ast.Call) and isinstance(c.func, ast.Attribute)
-                                 and c.func.attr == "from_ical" and len(c.args) == 2
-                                 for b in n.body for c in ast.walk(b))
-                    if passes:
-                        names = set(consts[v.comparators[0].id])
-    cond_form = False
-    if names is None:
-        # conditional-expression form: from_ical(val, tzid) with
-        # tzid = params.get('TZID') if <name> in <tuple> else None
-        env = SymEnv(fi.node)
-        for c in ast.walk(fi.node):
-            if isinstance(c, ast.Call) and isinstance(c.func, ast.Attribute) \
-                    and c.func.attr == "from_ical" and len(c.args) == 2:
-                e = env.expand_at(c.args[1])
-                if isinstance(e, ast.IfExp) and isinstance(e.test, ast.Compare) \
-                        and isinstance(e.test.ops[0], ast.In) and "TZID" in dump(e.body):
-                    try:
-                        names = set(m.const(e.test.comparators[0], fi.module))
-                        cond_form = True
-                    except AnalysisError:
-                        pass
-    if names is None:
-        raise AnalysisError("from_ical: the branch forwarding params['TZID'] was not found")
-    if cond_form:
-        return names, "FREEBUSY" in names, fi
-    # FREEBUSY has its own branch: does it pass the TZID?
-    fb = False
-    for n in ast.walk(fi.node):
-        if isinstance(n, ast.If) and isinstance(n.test, ast.Compare) \
-                and isinstance(n.test.comparators[0], ast.Constant) \
-                and n.test.comparators[0].value == "FREEBUSY":
-            fb = any(isinstance(c, ast.Call) and isinstance(c.func, ast.Attribute)
-                     and c.func.attr == "from_ical" and len(c.args) == 2
-                     for b in n.body for c in ast.walk(b))
-    return names, fb, fi
+    fi = m.func("cal.Component.from_ical")
+    probe = parseloop.tzid_probe(ctx)
+    names = {k for k, (with_tz, _) in probe.items() if with_tz == "forwarded" and not k.islower()}
+    return names - {"FREEBUSY"}, "FREEBUSY" in names, fi
 
 
 def _tzid_forward(ctx):
@@ -268,13 +222,18 @@ def _tzid_forward(ctx):
               f"from_ical forwards TZID for {sorted(names)}; RFC 5545 admits TZID on "
               f"{sorted(want)} (missing: {sorted(want - names)}, extra: {sorted(names - want)})",
               fi.loc(), detail=str(sorted(names)))
-    # both FREEBUSY branches and the date-time branch test 'TZID' in params
-    tests = [n for n in ast.walk(fi.node) if isinstance(n, ast.Compare)
-             and isinstance(n.left, ast.Constant) and n.left.value == "TZID"
-             and isinstance(n.ops[0], ast.In)]
-    ctx.check(len(tests) >= 2, "C11/TZID-FORWARD", "TZID presence tested",
-              "from_ical must test 'TZID' in params before forwarding it", fi.loc(),
-              detail=f"{len(tests)} tests")
+    # a line without a TZID parameter is decoded without one (and nothing fails)
+    from .. import parseloop
+    parseloop.report(ctx, "C11/TZID-FORWARD", lambda d: d["cause"] == "TZID forwarding differs",
+                     "every value of a TZID-carrying line is decoded with that TZID",
+                     laws=("TZID handed to the decoder of every value of the line",))
+    probe = parseloop.tzid_probe(ctx)
+    odd = {k: v for k, v in probe.items() if not k.islower()
+           and (v[1] != "dropped" or v[0] not in ("forwarded", "dropped"))}
+    ctx.check(not odd, "C11/TZID-FORWARD", "TZID presence tested",
+              f"parsing a property line with/without a TZID parameter: {odd} "
+              f"(a line without TZID must decode without one; nothing may fail)", fi.loc(),
+              detail=f"{len(probe)} property names probed with and without TZID")
     # decoders that receive the TZID accept it
     for cname in ("vDDDTypes", "vDDDLists", "vPeriod", "vDatetime"):
         f = m.own_method(f"prop.{cname}.from_ical")
